@@ -40,12 +40,15 @@ def plan(tier, seed):
     jobs.append({"name": "config", "spec": {"kind": "config"}})
     jobs.append({"name": "unparsable", "spec": {"kind": "unparsable", "n": 20000 if tier == "quick" else 2000000}})
     jobs.append({"name": "ambiguous", "spec": {"kind": "ambiguous"}})
+    # the first prints / parses / derivations of a process made by several threads at once (fresh process per shard)
+    for i in range(3 if tier == "quick" else 24):
+        jobs.append({"name": "threads%02d" % i, "spec": {"kind": "threads", "i": i, "rounds": 3 if tier == "quick" else 12}})
     return jobs
 
 
 def mandatory_bins(tier):
     return ["sweep_customer", "sweep_project", "sweep_device", "sweep_version", "project_9999", "device_9999", "device_0", "name_absent", "name_only", "name_with_version_suffix",
-            "prj_settings_subsets", "dev_settings_subsets", "fallback_name_only", "missing_error", "byte_width_1", "byte_width_2", "byte_width_3", "byte_width_4", "byte_width_8", "unparsable", "ambiguous_name", "parse_again_after_caller_edited_the_first_result", "naming_values_given_as_bytearray", "identifiers_differing_in_one_field_compare_unequal"]
+            "prj_settings_subsets", "dev_settings_subsets", "fallback_name_only", "missing_error", "byte_width_1", "byte_width_2", "byte_width_3", "byte_width_4", "byte_width_8", "unparsable", "ambiguous_name", "parse_again_after_caller_edited_the_first_result", "naming_values_given_as_bytearray", "identifiers_differing_in_one_field_compare_unequal", "identifiers_printed_parsed_and_derived_by_concurrent_threads"]
 
 
 def fields(obj):
@@ -173,11 +176,74 @@ def enc_int(v, width):
     return v.to_bytes(width, "big")
 
 
+def run_threads(ns, ctx, spec):
+    from ..sched import yieldrun
+
+    CI = ns.configid.ConfigId
+    rng = ctx.rng
+    codes = yieldrun.code_objects_of_module(ns.configid)
+    names = [n for n in NAMES_Q if n and n.strip() == n and not model.looks_numeric_prefix(n)]
+    total = 0
+    for rnd in range(spec["rounds"]):
+        nthreads = (2, 3, 4, 8)[(rnd + spec["i"]) % 4]
+        ids = []
+        for t in range(nthreads):
+            if (t + rnd) % 3 == 2:
+                ids.append((None, None, None, rng.randrange(100), rng.choice(names)))
+            else:
+                ids.append((rng.choice([x for x in (0, 1, 42, 9998, 10000, 99999, rng.randrange(100000)) if x != 9999]), rng.randrange(9999), rng.randrange(1, 9999), rng.randrange(100), rng.choice([None] + names)))
+
+        def body(t):
+            c, p, d, v, name = ids[t]
+
+            def run():
+                obj = CI(c, p, d, v, name)
+                text = str(obj)
+                back = CI.create_from_str(text)
+                K = model.NAMING_KEY
+                conf = {(K, model.V_PRJVER): enc_int(v, 1)}
+                if c is not None:
+                    conf.update({(K, model.V_CUSTOMER): enc_int(c, 4), (K, model.V_PROJECT): enc_int(p, 2), (K, model.V_DEVICE): enc_int(d, 2)})
+                if name is not None:
+                    conf[(K, model.V_PRJNAME)] = name.encode()
+                derived = CI.create_from_prj_settings(conf)
+                return text, fields(back), fields(derived), back == obj, model.from_prj(conf)
+            return run
+
+        res, y = yieldrun.run_concurrently([body(t) for t in range(nthreads)], codes, sleep=0.0002, max_yields=8000)
+        total += y
+        ctx.bin("identifiers_printed_parsed_and_derived_by_concurrent_threads")
+        for t, r in enumerate(res):
+            c, p, d, v, name = ids[t]
+            rp = {"kind": "id", "id": [c, p, d, v, name]}
+            ctx.ev()
+            ctx.distinct("threads", ids[t])
+            if r is None:
+                ctx.note("thread_still_running_after_timeout(inconclusive)")
+                continue
+            ctx.mon("str")
+            ctx.mon("create_from_str")
+            if r[0] == "exc":
+                ctx.violation("identifier_operation_raises_under_concurrent_use", {"id": rp["id"], "exc": r[1][:200], "threads": nthreads}, rp)
+                continue
+            text, back, derived, eq, exp_derived = r[1]
+            if text != model.fmt(c, p, d, v, name):
+                ctx.violation("printed_text_differs_under_concurrent_use", {"id": rp["id"], "text": text, "expected": model.fmt(c, p, d, v, name)}, rp)
+            elif not same_id(back, ids[t]) or not eq:
+                ctx.violation("print_then_parse_gives_other_identifier:concurrent_threads", {"id": rp["id"], "reparsed": back}, rp)
+            elif not same_id(derived, exp_derived):
+                ctx.violation("identifier_does_not_denote_the_naming_values:concurrent_threads", {"id": rp["id"], "derived": derived, "expected": exp_derived}, rp)
+    ctx.mon("line_yields_injected", total)
+
+
 def run_shard(spec, ctx):
     ns = load(plugin=False)
     rng = ctx.rng
     kind = spec["kind"]
     names = NAMES_Q if ctx.tier == "quick" else NAMES_T
+    if kind == "threads":
+        run_threads(ns, ctx, spec)
+        return
     if kind == "sweep":
         res = spec["res"]
         fixed = [(12345, 1, 2, 3), (0, 0, 0, 0), (99999, 9998, 9998, 99)]
